@@ -4,7 +4,16 @@ from .. import oracles, events_oracles
 
 class C09(Prop):
     pid = "C09"
+    quick = {"seeds": 2000, "wall_cap": 90, "chunk": 16}
+    thorough = {"seeds": 40000, "wall_cap": 1500, "chunk": 32}
     level = "exploration"
+    rule = ("one case = one seeded history: integrate with a mix of terminal and non-terminal events (finite target, or +-inf with a guaranteed terminal "
+            "time event), then continuation ops (integrate(), integrate() with the non-terminal events, integrate beyond tf) and, in 25% of cases, an rhs "
+            "fault somewhere in the first call (often inside the rollback sub-integration) followed by a resume.  Non-trivial = a terminal stop happened "
+            "(probe terminal_stop)")
+    assumptions = ["stop time equals the event time within 32 eps*max(1,|t|) (the library's loop-exit window)",
+                   "'on the event surface' holds to the accuracy of the run: bound 20*(E + O(h^4) of the rolled-back step) * |scale|",
+                   "status after a continuation is not asserted", "continuations never pass the already-fired terminal event again (g = 0 at the start would re-trigger it, as in scipy)"]
 
     def monitors(self, scn):
         mons = [events_oracles.Events(props=("C09",))]
